@@ -167,8 +167,12 @@ ON_WRITE = None  # optional callback(ex_id) right before every write_example
 
 def write_runs(filler_ctx, desc: dict, runs: list, delay_s: float = 0.0) -> None:
     """runs: list of [split, [ids...], metadata-or-None]"""
-    for split, ids, meta in runs:
-        for ex_id in ids:
+    for run in runs:
+        split, ids, meta = run[0], run[1], run[2]
+        bad_at = run[3] if len(run) > 3 else None
+        for pos, ex_id in enumerate(ids):
+            if bad_at is not None and pos == bad_at % max(len(ids), 1):
+                attempt_rejected_write(filler_ctx, desc, split, meta)
             if ON_WRITE is not None:
                 ON_WRITE(ex_id)
             kwargs = {}
@@ -179,6 +183,25 @@ def write_runs(filler_ctx, desc: dict, runs: list, delay_s: float = 0.0) -> None
                                      **kwargs)
             if delay_s:
                 time.sleep(delay_s)
+
+
+REJECTED = {"n": 0, "accepted": 0}
+
+
+def attempt_rejected_write(filler_ctx, desc: dict, split: str, meta) -> None:
+    """A write whose 'id' has the wrong shape; the caller (we) catches the
+    error and carries on, as C18 allows.  If the library accepts it, that is
+    C18's finding, not the current property's."""
+    values = example_for(desc, 0)
+    values["id"] = np.zeros((2,), dtype=np.int64)
+    kwargs = {}
+    if meta is not None:
+        kwargs["custom_metadata"] = meta
+    try:
+        filler_ctx.write_example(values=values, split=split, **kwargs)
+        REJECTED["accepted"] += 1
+    except Exception:  # pylint: disable=broad-except
+        REJECTED["n"] += 1
 
 
 def feed_writer(dataset_filler, spec: dict):
